@@ -8,6 +8,7 @@ import (
 	"strconv"
 	"strings"
 	"sync"
+	"syscall"
 
 	"verifharness/hx"
 )
@@ -53,10 +54,11 @@ type histEvOut struct {
 }
 
 type histOut struct {
-	ID    int         `json:"id"`
-	Cfg   string      `json:"cfg"`
-	Ev    []histEvOut `json:"ev"`
-	Setup string      `json:"setup,omitempty"` // non-empty: the driver could not run the history
+	ID     int         `json:"id"`
+	Cfg    string      `json:"cfg"`
+	Nofile int         `json:"nofile"`
+	Ev     []histEvOut `json:"ev"`
+	Setup  string      `json:"setup,omitempty"` // non-empty: the driver could not run the history
 }
 
 func clip(s string, n int) string {
@@ -68,6 +70,12 @@ func clip(s string, n int) string {
 
 func runHistory(h histIn, probeDir, scratch string) histOut {
 	out := histOut{ID: h.ID, Cfg: h.Cfg.Name, Ev: []histEvOut{}}
+	var rl syscall.Rlimit
+	if err := syscall.Getrlimit(syscall.RLIMIT_NOFILE, &rl); err == nil && rl.Max < 1<<30 {
+		out.Nofile = int(rl.Max) // the container init (a Go program) raises its soft limit to this
+	} else {
+		out.Nofile = 1 << 30
+	}
 	e, err := buildEnv(envCfg{Mounts: h.Cfg.Mounts, Cred: h.Cfg.Cred}, probeDir, scratch)
 	if err != nil {
 		out.Setup = err.Error()
